@@ -1,5 +1,7 @@
 import Drpc.Lemmas.Delivery
 import Drpc.Props.C01
+import Drpc.Lemmas.StreamFail
+import Drpc.Lemmas.StreamInvStep
 /-
   C05 — A transport fault never corrupts what is delivered: the pure data-path part.
   Property theorems only; helper lemmas live in Drpc/Lemmas/Delivery.lean.
@@ -92,5 +94,168 @@ example :
           ++ [255#8, 255#8, 0#8]))).1 :=
   ⟨(delivered_is_prefix_despite_fault 100 7 _ 2 _ 9 (by decide) (by decide) (by decide) (by decide)).1,
    sent_then_garbage 100 7 _ 2 _ _ (by decide) (by decide) (by decide) (by decide)⟩
+
+open Drpc.Stream
+
+/-! ## Stream level: a FAILING transport write (`drpcwire.Writer.WriteFrame` / `Flush` returning an
+    error; model: `Env.release (some tag)` for the thread parked at `writing`), on the atomic-step
+    model `Drpc/Stream/Conc.lean` — any number of threads, any interleaving.
+    `reported sh tag` = the cancel error if `cancel` is set (`checkCancelError`), else the
+    transport's error `transport tag`. -/
+
+/-- (1) The call whose transport write failed is told so.  When the write in flight completes
+    with error `tag`, the thread that issued it (`t`, parked at `writing sec _`) continues at
+    `ret sec r` with `r = reported …` — the cancel error if the stream has been cancelled, else
+    `transport tag`; never `nil` — and no other thread moves.  For every write section that is not
+    MsgRecv's inner flush (`sec.recvAfter = none`: MsgSend, RawWrite, RawFlush and the packet of
+    Close / SendError / CloseSend / SendCancel — see `sections_of_calls`) this `r` is the result of
+    the call (`retOf`, `reported_result_is_returned`). -/
+theorem failed_write_is_reported {s s' : St} {tag : Nat} (he : envStep s (.release (some tag)) = some s') :
+    ∃ t frs sec ff, s.sh.inflight = some (t, frs) ∧ s.pc t = .writing sec ff ∧
+      s'.pc t = .ret sec (reported s.sh tag) ∧
+      reported s.sh tag = (match s.sh.cancel with | some e => .err e | none => .err (.transport tag)) ∧
+      reported s.sh tag ≠ .nil ∧
+      (sec.recvAfter = none → retOf (s'.pc t) = some (reported s.sh tag)) ∧
+      (∀ u, u ≠ t → s'.pc u = s.pc u) := by
+  obtain ⟨t, frs, sec, ff, hi, hp, rfl⟩ := release_err he
+  refine ⟨t, frs, sec, ff, hi, hp, by simp, rfl, reported_ne_nil _ _, ?_, ?_⟩
+  · intro hn; simp [hn]
+  · intro u hu; exact upd_pc_ne _ _ _ _ _ hu
+
+/-- Once fixed, the result is what the call returns: along the thread's own steps (write.Unlock,
+    the three reads of `checkFinished`) the fixed result stays until the thread is `done r`; the
+    thread is never blocked on the way; steps of other threads and environment events do not
+    touch it. -/
+theorem reported_result_is_returned {s : St} {t : Tid} {r : Ret} (h0 : retOf (s.pc t) = some r) :
+    (step s t).isSome = true ∧
+    (∀ u s', step s u = some s' → retOf (s'.pc t) = some r ∨ s'.pc t = .done r) ∧
+    (∀ e s', envStep s e = some s' → retOf (s'.pc t) = some r) := by
+  refine ⟨retOf_enabled h0, ?_, ?_⟩
+  · intro u s' hs
+    by_cases hu : t = u
+    · subst hu; exact retOf_step h0 hs
+    · left; rw [step_pc_other hu hs]; exact h0
+  · intro e s' he
+    rw [retOf_env h0 he]; exact h0
+
+/-- Which write sections the calls create (`recvAfter = none` except for the two flushes of
+    `checkRecvFlush` inside MsgRecv / RawRecv). -/
+theorem sections_of_calls (s : St) (t : Tid) :
+    (∀ k d, ∃ sec, stepPC s t (.start (.rawWrite k d)) = some (s.setPc t (.lockW (.rawWrite k d) sec)) ∧ sec.recvAfter = none) ∧
+    (∃ sec, stepPC s t (.start .rawFlush) = some (s.setPc t (.lockW .rawFlush sec)) ∧ sec.recvAfter = none) ∧
+    (∀ d p s', stepPC s t (.once (.msgSend d p)) = some s' → ∃ sec, s'.pc t = .lockW (.msgSend d p) sec ∧ sec.recvAfter = none) ∧
+    (∀ c, ∃ s' sec, stepPC s t (.unlockMu c) = some s' ∧ s'.pc t = .frame sec ∧ sec.recvAfter = none) ∧
+    (∀ m s', s.sh.once = none → stepPC s t (.once (.msgRecv m)) = some s' →
+      ∃ sec, s'.pc t = .lockW (.msgRecv m) sec ∧ sec.recvAfter = some m) := by
+  refine ⟨fun k d => ⟨_, rfl, rfl⟩, ⟨_, rfl, rfl⟩, ?_, fun c => ⟨_, { frames := [packetOf s.opts (s.sh.mid + 1#64) c], checks := false, flush := .unchecked, recvAfter := none }, rfl, by simp, rfl⟩, ?_⟩
+  · intro d p s' h
+    simp only [stepPC] at h
+    split at h <;> first | (cases h; done) | (simp at h; subst h; exact ⟨_, by simp, rfl⟩) | skip
+    all_goals simp_all
+    all_goals (subst h; exact ⟨{ frames := [], checks := true, flush := if s.opts.manualFlush then .none else .checked, recvAfter := none }, by simp, rfl⟩)
+  · intro m s' ho h
+    simp only [stepPC, ho] at h
+    cases h
+    exact ⟨flushSec (some m), by simp, rfl⟩
+
+/-- The flush inside MsgRecv (`checkRecvFlush`): when its transport write failed, the thread
+    reaches `unlockW sec r` with `r ≠ nil`; at `write.Unlock` the error becomes the result of the
+    receive — unless the stream is terminated by then, in which case the receive goes on and
+    reports why the stream was terminated (the repaired `checkRecvFlush`). -/
+theorem failed_recv_flush_is_reported {s s' : St} {t : Tid} {sec : WSec} {r : Ret} {m : RecvMode}
+    (hp : s.pc t = .unlockW sec r) (hm : sec.recvAfter = some m) (hr : r ≠ .nil) (hs : step s t = some s') :
+    (s.sh.term = none → retOf (s'.pc t) = some r) ∧
+    (s.sh.term.isSome = true → s'.pc t = .cf1 (.read m)) := by
+  simp only [step, hp, stepPC, hm, hr, if_false] at hs
+  cases hs
+  constructor
+  · intro ht; simp [ht]
+  · intro ht; simp [ht]
+
+/-- (2) The frames of a failed transport write reach no wire and are not kept: after the failure
+    `wire` is unchanged, the writer's buffer is empty and its `empty` flag clear ("buffered frames
+    are dropped", writer.go: `b.buf = b.buf[:0]` also on error), no write is in flight, the failure
+    is recorded; the history of appended frames is untouched. -/
+theorem failed_write_reaches_no_wire {s s' : St} {tag : Nat} (h : Reach s)
+    (he : envStep s (.release (some tag)) = some s') :
+    s'.sh.wire = s.sh.wire ∧ s'.sh.wbuf = [] ∧ s'.sh.wFlag = false ∧ s'.sh.inflight = none ∧
+    s'.sh.failed = true ∧ s'.sh.hist = s.sh.hist := by
+  obtain ⟨t, frs, sec, ff, hi, hp, rfl⟩ := release_err he
+  have hb := reach_inflightBuf h (by simp [hi])
+  simp [relSh, hb]
+
+/-- `wire` only ever grows by the frames of a SUCCESSFUL transport write: no step of any thread
+    changes it, and an environment event either leaves it alone or is the successful completion
+    of the write in flight, whose frames it appends. -/
+theorem wire_grows_only_by_completed_writes {s : St} :
+    (∀ t s', step s t = some s' → s'.sh.wire = s.sh.wire) ∧
+    (∀ e s', envStep s e = some s' → s'.sh.wire = s.sh.wire ∨
+      (e = .release none ∧ ∃ t frs, s.sh.inflight = some (t, frs) ∧ s'.sh.wire = s.sh.wire ++ [frs])) :=
+  ⟨fun _ _ h => step_wire_same h, fun _ _ h => env_wire h⟩
+
+/-- (3) What a failed write leaves behind — the model as written, which is what the Go code does:
+    the stream is NOT terminated by a failed write (no signal changes; the manager terminates the
+    stream when it closes the transport), and nothing of the failed write is kept for resending:
+    everything that can still reach the wire (`live`: completed writes ++ write in flight ++ buffer)
+    is already on it.  A later send therefore starts from an empty writer, takes a fresh message
+    id and appends only its own frames (and does try the transport again). -/
+theorem write_after_failed_write {s s' : St} {tag : Nat} (h : Reach s)
+    (he : envStep s (.release (some tag)) = some s') :
+    (s'.sh.send = s.sh.send ∧ s'.sh.recv = s.sh.recv ∧ s'.sh.term = s.sh.term ∧ s'.sh.fin = s.sh.fin ∧
+     s'.sh.cancel = s.sh.cancel) ∧
+    live s'.sh = s.sh.wire.flatten ∧ s'.sh.mid = s.sh.mid := by
+  obtain ⟨h1, h2, h3, h4, h5, _, _⟩ := env_signals he
+  obtain ⟨t, frs, sec, ff, hi, hp, rfl⟩ := release_err he
+  have hb := reach_inflightBuf h (by simp [hi])
+  refine ⟨⟨h1, h2, h3, h4, h5⟩, ?_, by simp [relSh]⟩
+  simp [live, relSh, inflightFrames, hb]
+
+/-- On the wire every message is whole, cut short at the end, or absent: for every message id the
+    frames present in `wire` are an initial segment (`<+:`) of the frames the sender appended for
+    that message, in the same order — a failed write can cut a message short, never leave a hole,
+    reorder or duplicate.  (The same holds for `live`, i.e. including the write in flight and the
+    buffer.)
+    `_partial`: under the no-wrap hypothesis on the 64-bit message counter, and relative to the
+    frames APPENDED for the message (`hist`), which for a send refused half-way by the `send`/`term`
+    checks are themselves an initial segment of the message's split (frames are appended in order
+    from `sec.frames`); by `C07.wire_wellformed` the frames of one id are contiguous in `hist`. -/
+theorem wire_messages_are_whole_or_absent_partial {s : St} (h : Reach s) (hnw : s.sh.midN < 2^64) (m : U64) :
+    (s.sh.wire.flatten.filter (fun f => f.mid == m)) <+: (s.sh.hist.filter (fun f => f.mid == m)) ∧
+    ((live s.sh).filter (fun f => f.mid == m)) <+: (s.sh.hist.filter (fun f => f.mid == m)) := by
+  have hp := (reach_whole h hnw).pre m
+  refine ⟨?_, hp⟩
+  have : s.sh.wire.flatten <+: live s.sh := ⟨inflightFrames s.sh ++ s.sh.wbuf, by simp [live]⟩
+  exact (this.filter _).trans hp
+
+/-- … and while a send is still appending the frames of its message, nothing of that message has
+    been dropped: a failed write ends the send (`failed_write_is_reported`), it never continues
+    with the remaining frames. -/
+theorem current_message_intact_while_sending {s : St} (h : Reach s) (hnw : s.sh.midN < 2^64) {t : Tid}
+    (ht : pend (s.pc t) ≠ []) :
+    (live s.sh).filter (fun f => f.mid == s.sh.mid) = s.sh.hist.filter (fun f => f.mid == s.sh.mid) :=
+  (reach_whole h hnw).cur ⟨t, ht⟩
+
+/-- (4) non-vacuity, a concrete run: split size 1, writer threshold 0, `MsgSend [1,2]` = frames
+    `f1` (not done) and `f2` (done), each its own transport write.  The first write succeeds, the
+    second fails with error 9: the call returns `transport 9`, `wire` holds `f1` only (message 1 cut
+    short: `[f1] <+: [f1, f2]`), the buffer is empty, the failure recorded, the stream not
+    terminated — and every state on the way is reachable. -/
+theorem two_frame_message_second_write_fails :
+    call FailEx.e0 0 (.msgSend [1#8, 2#8]) = FailEx.e1 ∧
+    envStep FailEx.e1 (.release none) = some FailEx.e2 ∧
+    runSolo 64 FailEx.e2 0 = FailEx.e3 ∧
+    envStep FailEx.e3 (.release (some 9)) = some FailEx.e4 ∧
+    runSolo 64 FailEx.e4 0 = FailEx.e5 ∧
+    Reach FailEx.e3 ∧ Reach FailEx.e5 ∧
+    FailEx.e3.sh.inflight = some (0, [FailEx.f2]) ∧
+    FailEx.e5.pc 0 = .done (.err (.transport 9)) ∧
+    FailEx.e5.sh.hist = [FailEx.f1, FailEx.f2] ∧ FailEx.e5.sh.wire = [[FailEx.f1]] ∧
+    FailEx.e5.sh.wbuf = [] ∧ FailEx.e5.sh.wFlag = false ∧ FailEx.e5.sh.failed = true ∧
+    FailEx.e5.sh.term = none ∧ FailEx.e5.sh.send = none ∧ FailEx.e5.sh.midN < 2^64 := by
+  have r1 : Reach FailEx.e1 := FailEx.e01 ▸ reach_call _ (Reach.init _) ⟨_, rfl⟩
+  have r3 : Reach FailEx.e3 := FailEx.e23 ▸ reach_runSolo _ _ (r1.env FailEx.e12)
+  have r5 : Reach FailEx.e5 := FailEx.e45 ▸ reach_runSolo _ _ (r3.env FailEx.e34)
+  exact ⟨FailEx.e01, FailEx.e12, FailEx.e23, FailEx.e34, FailEx.e45, r3, r5, rfl, rfl, rfl, rfl, rfl, rfl, rfl,
+    rfl, rfl, by decide⟩
 
 end Drpc.Props.C05
